@@ -1,7 +1,5 @@
 """C18: the dynamic completion engine never fails and only offers valid continuations."""
-import ast
 import os
-import re
 
 from .. import core, gen_cmd
 from ..core import hexs, unhex, sx_parse
@@ -63,7 +61,7 @@ LEVEL_NOTE = ("Trusted: Coq kernel, extraction, OCaml driver, Rust harness, gene
               "not modelled.  Class boundaries kept as theorems with witnesses replayed on the real crate: require_equals "
               "(C18_require_equals_refuted: `p --opt <TAB>` offers a value the parser rejects with UnknownArgument); an option "
               "without long name but with a visible alias is neither recognised by the shadow parse (C18_same_long_refuted) nor "
-              "offered (C18_complete_options_alias_refuted = known finding C18-alias-without-long); --alias=<TAB> offers no values "
+              "offered (C18_complete_options_alias_refuted = known finding C18-alias-without-primary); --alias=<TAB> offers no values "
               "(C18_long_alias_value_refuted).")
 
 U64_MAX = 2**64 - 1
@@ -438,7 +436,15 @@ def accept_oracle(case, impl):
         if a.get("s") and word in (b"", b"-"):
             spell += [b"-" + c.encode() for c in a.get("s", []) + a.get("vsa", [])]
         if any(sp.startswith(word) for sp in spell) and (b"arg::" + a["id"]) not in seen_ids:
-            return "visible option %r has a spelling extending %r but is not represented" % (a["id"], word)
+            # recorded finding (family alias-without-primary, shared with C16): a visible long alias of an option that has
+            # no long name (resp. a visible short alias without a short) is a key for the parser but the engine, like the
+            # ahead-of-time generators, goes through Arg::get_long_and_visible_aliases, which returns nothing without a primary
+            primary = [b"--" + x for x in a.get("l", [])] + ([b"-" + c.encode() for c in a.get("s", [])] if word in (b"", b"-") else [])
+            tag = "" if any(sp.startswith(word) for sp in primary) or (a.get("l") and a.get("s")) \
+                or any(sp.startswith(word) for sp in ([b"--" + x for x in a.get("va", [])] if a.get("l") else [])
+                       + ([b"-" + c.encode() for c in a.get("vsa", [])] if a.get("s") and word in (b"", b"-") else [])) \
+                else " [alias-without-primary]"
+            return "visible option %r has a spelling extending %r but is not represented%s" % (a["id"], word, tag)
     for s in level["subs"]:
         if s["hidden"]:
             continue
@@ -841,36 +847,7 @@ def streams(tier, rng):
     ]
 
 
-_GAP = re.compile(r"^visible option (b'.*'|b\".*\") has a spelling extending (b'.*'|b\".*\") but is not represented$", re.S)
-
-
 def classify_known(stream, case, impl, failure):
-    """C18-alias-without-long: the completeness complaint concerns an option WITHOUT a long name whose only
-    spellings extending the word are `--<visible alias>` (theorem C18_complete_options_alias_refuted)"""
-    if stream != "accept" or not isinstance(failure, str):
-        return None
-    m = _GAP.match(failure)
-    if not m:
-        return None
-    try:
-        aid = ast.literal_eval(m.group(1))
-        word = ast.literal_eval(m.group(2))
-        _, extra = split_result(impl)
-        info = {it[0]: it[1:] for it in sx_parse("(" + extra + ")")}
-        _, argv, index = decode_case(case)
-        root = node_of(info["tree"][0])
-        start = 0 if "no_binary_name" in root["flags"] else 1
-        level, _ = scan_prefix(root, argv[start:index])
-    except Exception:
-        return None
-    own = [a for a in level["args"] if a["id"] == aid]
-    if len(own) != 1:
-        return None
-    a = own[0]
-    if a.get("l") or not a.get("va"):
-        return None                       # it has a long name (or no visible alias): not this family
-    if a.get("s") and word in (b"", b"-"):
-        return None                       # a short spelling extends the word: the option must be represented
-    if not any((b"--" + x).startswith(word) for x in a["va"]):
-        return None
-    return "C18-alias-without-long"
+    if isinstance(failure, str) and failure.endswith("[alias-without-primary]"):
+        return "C18-alias-without-primary"
+    return None
